@@ -64,6 +64,15 @@ SlicePieces(F, mask, ref) ==
       out |-> IF p.out.u THEN U
               ELSE Out([r \in 1..Len(p.out.m) |-> Restrict(p.out.m[r], ks)],
                        [r \in 1..Len(p.out.m) |-> p.out.b[r] + FixSum(p.out.m[r], mask, ref)], p.out.q)] : p \in F}
+\* cache soundness (C05) on a recorded tree: witnesses (logged at scale WQ) have the tree's dimension and satisfy the closed path conditions
+WQ == 100000
+SumAbs(v) == LET RECURSIVE G(_) G(n) == IF n = 0 THEN 0 ELSE Abs(v[n]) + G(n - 1) IN G(Len(v))
+SatTol(c, ws, q) == Dot(c.a, ws) <= c.b * WQ + SumAbs(c.a) + q
+CacheSound(t) ==
+    \A i \in Occ(t) \ {t.root} :
+        /\ t.nodes[i].st = "W" => \A j \in 1..Len(t.nodes[i].w) :
+                LET wj == t.nodes[i].w[j] IN Len(wj.p) = t.dim /\ (~wj.ok \/ \A c \in ClosedRegion(t, i) : SatTol(c, wj.p, t.nodes[i].q))
+        /\ t.nodes[i].st = "X" => ~HasInterior(ClosedRegion(t, i), t.dim)
 CheckSlice(e) ==
     IF e.res = "panic" THEN V("C17", e, FALSE, "from_slice / compose / remove_axes panicked", "slice/panic")
     ELSE LET t == ToT(e.tree)  s == ToT(e.post)  kd == Len(KeepIdx(e.mask)) IN
@@ -73,6 +82,7 @@ CheckSlice(e) ==
          /\ V("C17", e, ~Sane(s) \/ s.dim # kd \/ e.prune \/ GridAgrees(e, e.q, SlicePieces(P0(t), e.mask, e.ref)),
               "evaluate() of the sliced tree differs from the restriction at a grid point", "slice/grid")
          /\ V("C17", e, \A n \in 1..Len(e.grid.vals) : e.grid.vals[n].d # 2, "evaluate() of the sliced tree panicked", "slice/eval-panic")
+         /\ V("C05", e, ~Sane(s) \/ CacheSound(s), "after remove_axes a cached witness does not lie in its (lower-dimensional) path region or an infeasible mark is wrong", "slice/cache")
 
 \* ---------------------------------------------------------------- C01: distillation
 HasHead(layers) == \E j \in 1..Len(layers) : layers[j].k \in {"argmax", "class_char"}
@@ -83,7 +93,7 @@ NetShape(e) == (IF e.pre.kind = "none" THEN "nopre" ELSE "pre") \o "/" \o (IF Ha
 CheckDistill(e) ==
     IF e.res = "panic" THEN V("C01", e, FALSE, "afftree_from_layers panicked on a dimension-consistent network", "distill/panic/" \o NetShape(e))
     ELSE LET t == ToT(e.tree)  d == e.dim  F == NetPieces(e.layers, e.pre, d)
-             pats == IF OnlyRelu(e.layers) /\ e.pre.kind = "none" THEN NetPatterns(e.layers, d) ELSE {}
+             pats == IF ~HasHead(e.layers) /\ e.pre.kind = "none" THEN NetPatterns(e.layers, d) ELSE {}
              full == {p \in pats : HasInterior(Closed(p.cons), d)}
              nonempty == {p \in pats : Feas(Closed(p.cons), d)}
          IN
@@ -93,8 +103,8 @@ CheckDistill(e) ==
          /\ V("C01", e, ~Sane(t) \/ ~AllExact(e.tree) \/ (IF ExactUniverse(e.layers) THEN GridAgrees(e, e.q, F) ELSE GridAgreesInterior(e, e.q, F)),
               "evaluate() of the distilled tree differs from the network at a grid point", "distill/grid/" \o NetShape(e))
          \* C06: number of terminals between the full-dimensional and the non-empty closed activation regions (ReLU networks, no head, no precondition)
-         /\ V("C06", e, ~(OnlyRelu(e.layers) /\ e.pre.kind = "none") \/ (Cardinality({p.cons : p \in full}) <= e.num_terminals /\ e.num_terminals <= Cardinality(nonempty)),
-              "number of terminals of a distilled ReLU network is outside [#full-dimensional regions, #non-empty closed regions]", "distill/terminals")
+         /\ V("C06", e, ~(~HasHead(e.layers) /\ e.pre.kind = "none") \/ (Cardinality({p.cons : p \in full}) <= e.num_terminals /\ e.num_terminals <= Cardinality(nonempty)),
+              "number of terminals of a distilled network is outside [#full-dimensional activation regions, #non-empty closed regions]", "distill/terminals")
 
 \* ---------------------------------------------------------------- C18: Architecture and layer files
 RECURSIVE ArchWalk(_, _, _, _)
